@@ -40,6 +40,7 @@ Bases == <<
 
 ErrKinds == <<"filter", "func", "test", "noniter", "block", "include", "syntax", "argfirst", "argmid", "argfilter", "macro">>
 DivZero == Bin("%", IntE(1), IntE(0))
+NoFn == CallE("nosuchfunc", <<StrE("q")>>)
 ErrStmt(kind) ==
   CASE kind = "filter" -> PrintS(Pipe(NameE("x"), "nosuchfilter", <<>>))
     [] kind = "func" -> PrintS(CallE("nosuchfunc", <<>>))
@@ -49,7 +50,7 @@ ErrStmt(kind) ==
     [] kind = "include" -> IncludeS(StrE("missing"), NoE, FALSE)
     [] kind = "syntax" -> IncludeS(StrE("bad"), NoE, FALSE)
     (* a failing argument that is not the last one: every argument's error counts *)
-    [] kind = "argfirst" -> PrintS(CallE("id", <<DivZero, StrE("x")>>))
+    [] kind = "argfirst" -> PrintS(CallE("id", <<NoFn, StrE("x")>>))
     [] kind = "argmid" -> PrintS(CallE("nul", <<StrE("a"), DivZero, StrE("x")>>))
     [] kind = "argfilter" -> PrintS(Pipe(NameE("x"), "wrap", <<DivZero, StrE("y")>>))
     [] OTHER -> <<>>
@@ -71,7 +72,9 @@ Programs ==
            : b \in {q \in 1..Len(Bases) : FirstBody(Bases[q]) # 0}, e \in 1..10 }
   \cup { [t |-> <<ImportS(StrE("lib"), "L"), Text("a"), PrintS(AttrCall(NameE("L"), "nope", <<>>)), Text("b")>>, tag |-> "err-macro"],
          [t |-> <<FromS(StrE("lib"), << <<"m", "m">> >>), Text("a"), PrintS(CallE("m", <<DivZero, StrE("x")>>)), Text("b")>>, tag |-> "err-argmacro"],
-         [t |-> <<ImportS(StrE("lib"), "L"), Text("a"), PrintS(AttrCall(NameE("L"), "m", <<DivZero, StrE("x")>>)), Text("b")>>, tag |-> "err-argmacro"] }
+         [t |-> <<ImportS(StrE("lib"), "L"), Text("a"), PrintS(AttrCall(NameE("L"), "m", <<DivZero, StrE("x")>>)), Text("b")>>, tag |-> "err-argmacro"],
+         [t |-> <<FromS(StrE("lib"), << <<"m", "m">> >>), Text("a"), PrintS(CallE("m", <<NoFn, StrE("x")>>)), Text("b")>>, tag |-> "err-argmacro"],
+         [t |-> <<ImportS(StrE("lib"), "L"), Text("a"), PrintS(AttrCall(NameE("L"), "m", <<NoFn, StrE("x")>>)), Text("b")>>, tag |-> "err-argmacro"] }
   (* every unparseable template, reached as the entry itself, by include, extends, embed, import, from and use *)
   \cup UNION { { [t |-> Bad(v), tag |-> "err-unparseable-entry"],
                  [t |-> <<Text("a"), IncludeS(StrE(BadName(v)), NoE, FALSE), Text("b")>>, tag |-> "err-unparseable-include"],
@@ -93,6 +96,6 @@ Out == v_lvl < 2 \/ Emit([RenderVec("C17-" \o ToString(v_idx), Cur.tag, Tpls, "t
 (* design-level statement on the reference: an error stops execution, so the output at the error is a prefix of
    the output of the same program without the erroring statement *)
 ErrorStopsOutput == (v_lvl = 2 /\ SubSeq(Cur.tag, 1, 3) = "err") =>
-  LET R == Execute(Tpls, "t", Ctx) IN R.status \in {"err", "oom"}
+  LET R == Execute(Tpls, "t", Ctx) IN R.status \in {"err", "oom"} /\ (Cur.tag \in {"err-argfirst", "err-argmid", "err-argfilter", "err-argmacro"} => R.status = "err")
 BasesSucceed == (v_lvl = 2 /\ Cur.tag = "base") => Execute(Tpls, "t", Ctx).status = "ok"
 =============================================================================
